@@ -40,6 +40,9 @@ ATTRS = [
     {"t": (1, (2, 3), [4, (5,)]), "empty_list": [], "empty_tuple": (), "text": ""},
     {"coordinates": ["rows", "time"], "false": False, "zero": 0, "zerof": 0.0},
     {"quote": 'a "b" \\ c', "unicode": "σ⁰ λ 日本", "newline": "x\ny"},
+    # regular-looking lists of pairs (what a 'store start/stop/step' optimisation would fold): starts and stops that advance by
+    # different constants, by the same constant, geometric, with one irregular element
+    {"windows": [(0, 10), (20, 40), (40, 70)], "same": [(0, 10), (20, 30), (40, 50), (60, 70)], "lists": [[0, 1], [2, 4], [4, 7]], "geo": [(1, 2), (2, 4), (4, 8), (8, 16)], "odd": [(0, 5), (10, 15), (20, 26), (30, 35)], "runs": [1, 3, 5, 7, 9], "fruns": [0.5, 1.0, 1.5]},
 ]
 
 
@@ -230,6 +233,10 @@ def doc_params(tier):
             for rpc in (1, 2, 1024):
                 for shift in (0, 7, 720):
                     out.append({"t": "backend", "tc": tc, "dtype": dtype, "L": L, "P": 4, "rpc": rpc, "shift": shift})
+        # byte ranges whose lengths grow / whose gaps vary (records are not required to be equally long)
+        for L in (3, 6):
+            for mode in ("growing", "gaps", "one-off"):
+                out.append({"t": "backend", "tc": tc, "dtype": dtype, "L": L, "P": 4, "rpc": 1, "shift": 0, "ranges": mode})
     return out
 
 
@@ -277,6 +284,12 @@ def build_doc(p):
         fs = DirFileSystem(path="/some/root dir", fs=fsspec.filesystem("file"))
         bps = 2 if p["tc"] == "IU2" else 8
         br = [(p.get("shift", 0) + 720 + k * (192 + p["P"] * bps) + 192, p.get("shift", 0) + 720 + (k + 1) * (192 + p["P"] * bps)) for k in range(p["L"])]
+        if p.get("ranges") == "growing":
+            br = [(a + 10 * k * (k - 1) // 2 * 0 + 100 * k, a + 100 * k + (b - a) + 8 * k) for k, (a, b) in enumerate(br)]
+        elif p.get("ranges") == "gaps":
+            br = [(a + 3 * k * k, b + 3 * k * k) for k, (a, b) in enumerate(br)]
+        elif p.get("ranges") == "one-off":
+            br = [(a, b + (1 if k == p["L"] - 1 else 0)) for k, (a, b) in enumerate(br)]
         arr = Array(fs=fs, url="IMG-HH-X", byte_ranges=br, shape=(p["L"], p["P"]), dtype=p["dtype"], type_code=p["tc"], records_per_chunk=p["rpc"])
         g = Group(path="HH", url=None, data={"data": Variable(["rows", "columns"], arr, {}), "rows": Variable(["rows"], list(range(1, p["L"] + 1)), {})}, attrs={"coordinates": ["rows"]})
         return g, p["rpc"]
